@@ -194,6 +194,8 @@ Context (n : nat) (P : vec -> vec) (f : vec -> F) (g : vec -> vec).
 (* option values are [option F] (None = the Python None); Python truthiness of a float: not None and not 0.0.
    [vs] = len(algorithm_option.var_start) when a start point is given, [qt] = self._qt.num_variables when a tomography is set,
    [sqn] = np.sqrt on naturals (oracle).  Result None = the method raises. *)
+(* the validation before the loops: optimize raises ValueError unless the loss provides values and gradients *)
+Definition C10_precondition (on_value on_gradient : bool) : bool := on_value && on_gradient.
 Definition C10_truthy (o : option F) : bool := match o with Some v => negb (keqb F v 0) | None => false end.
 Definition C10_getF (o : option F) : F := match o with Some v => v | None => 0 end.
 Definition C10_three : F := C10_two + 1.
